@@ -258,7 +258,8 @@ CHECKS = {
          "exactly supported /\\ length = recorded /\\ CRC = recorded. The complete stdout of `lha t | x | e` (progress bar "
          "with its scale factor, Tested / CRC error / Melted / Failure lines) and the exit status are compared byte for byte with "
          "Cli.tla (Trace_Cli) on generated archives and crafted progress-bar cases (57/58/59/116/117 blocks, declared length far beyond "
-         "the data, every corpus method).",
+         "the data, every corpus method), and on extractions whose output file cannot be created (a directory already at the member's path: "
+         "nothing may be reported as melted).",
     design_ref="DESIGN.md section 5, C07",
     note="The recorded length/CRC are taken as the library returns them in the header (C05 covers parsing). MacBinary members "
          "are excluded (the envelope is stripped before the caller sees the bytes).",
@@ -277,7 +278,8 @@ CHECKS = {
          "front of real streams of every method) and mutated archives, through all five stream kinds, under a "
          "deterministic step budget; every call's result is validated against Reader.tla and the trace spec evaluates on every "
          "call: callback calls <= 2*len+64*ops+256, bytes requested <= 3*len+out+(1MiB+8K)*ops+64K, peak heap <= 8 MiB+2*len. Sources that "
-         "fail for good after k callbacks (read: -1, skip: 0) must still let every call return. The tool: the overwrite prompt with "
+         "fail for good after k callbacks (read: -1, skip: 0) must still let every call return. Archives of 10^5 tiny members are walked to the "
+         "end with the heap under the same bound (nothing may be kept per member passed). The tool: the overwrite prompt with "
          "every sequence of up to two answers and with input that stops at or inside an answer, run under CPU and output limits "
          "(TreeModel!Ask: end of input at the prompt ends the tool).",
     design_ref="DESIGN.md section 5, C13",
@@ -298,7 +300,9 @@ CHECKS = {
          "be accepted by Reader.tla; (3) the tool: Cli!Main (src/main.c: argument shapes, the name '-' = standard input, open failure, "
          "usage page) decides every whole invocation - list, test, print, dry-run and extract commands on archives named by path, "
          "by '-' with the file itself on standard input, by '-' with a pipe and with a pipe fed 7 bytes at a time, with and without stubs in front: standard output "
-         "must equal Cli!MainOutput byte for byte for the members of the seekable-file reading.",
+         "must equal Cli!MainOutput byte for byte for the members of the seekable-file reading. Callback streams come in flavours: with a skip "
+         "callback, without, with one that refuses to pass the end and stays where it was, and ones that fail for good after k calls; first headers "
+         "damaged in the fields the scan does not look at; an archive stored inside an archive, cut every few bytes.",
     design_ref="DESIGN.md section 5, C16",
     note="Caller callbacks are assumed to fill the buffer unless at end of input. Reader-level ground truth is relative (reference run "
          "over a seekable file); the scan itself is validated absolutely against the spec on the raw bytes.",
@@ -359,7 +363,8 @@ CHECKS = {
          "trace validation: a synthetic decoder type plays the model's scripts, and all 14 real methods run behind a "
          "wrapper type on valid, bit-flipped and random streams with six declared lengths and many read schedules; every "
          "call's result, bytes, inner-call count, callbacks, CRC and length must be the model's, and every schedule must "
-         "reproduce the bytes of the single maximal read.",
+         "reproduce the bytes of the single maximal read. The monitor is also attached from inside a progress callback (the two handlers "
+         "together must see the one rising sequence).",
     design_ref="DESIGN.md section 5, C14",
     note="Trusted: TLC/SANY/CommunityModules, clang+ASan, the wrapper type's view of the inner read(). Request sizes near "
          "SIZE_MAX are outside the statement.",
